@@ -42,6 +42,7 @@ pub const PINNED: &[(&str, &str)] = &[
     // do - the numbers restart at 1, or a nested list right after the item's text would be read as that text -, and item
     // texts that begin with numerals outside ASCII
     ("empty-item-before-numbered-items", "- a\n  1. >\n  2. b\n\n1. c\n   1. >\n   2. d\n2. e\n"),
+    ("wiki-image-in-cell", "| Screen | Preview |\n|--------|---------|\n| Login | ![[login.png\\|200]] |\n"),
     ("item-text-non-ascii-numeral", "- ٣ apples\n- ½ cup\n\n1. １日目 arrival\n2. ① first\n"),
 ];
 
